@@ -60,6 +60,17 @@ def one_case(run, ct, rng, net, ssa, plan, tlc_values, route=None):
             else:
                 gathered = np.asarray(tree.gather_slices(svals))
             direct = np.asarray(tree.contract(arrays, **opts))
+            # the slices handed back as (mantissa, exponent) pairs are reassembled too (rescaled to a common exponent, stacked
+            # along sliced output indices)
+            stripped = None
+            if rng.random() < 0.5:
+                fl = [np.asarray(a, dtype=float) for a in arrays]
+                sp = [tree.contract_slice(fl, i, strip_exponent=True, check_zero=True) for i in range(n)]   # (the canonical arrays have zeros)
+                try:
+                    gm, ge = tree.gather_slices(sp)
+                    stripped = np.asarray(gm) * 10.0 ** float(ge)
+                except Exception as e_:
+                    stripped = e_
             chunks = [(np.asarray(ch), {inv[k]: int(v) for k, v in key.items()})
                       for ch, key in tree.gen_output_chunks(arrays, with_key=True, **opts)]
             if rng.random() < 0.2:
@@ -94,6 +105,11 @@ def one_case(run, ct, rng, net, ssa, plan, tlc_values, route=None):
             if g.shape != full.shape or not np.array_equal(g, full):
                 bad = f"{nm} result differs from the contraction (shape {g.shape} vs {full.shape})"
                 break
+    if bad is None and stripped is not None and np.any(full != 0):     # (an exactly zero result is documented to come back as a scalar)
+        if isinstance(stripped, Exception):
+            bad = f"gather_slices of (mantissa, exponent) slices raised {core.exc_text(stripped)} (the result is not zero)"
+        elif stripped.shape != full.shape or not np.allclose(stripped, full, rtol=1e-9, atol=1e-9):
+            bad = "gather_slices of (mantissa, exponent) slices differs from the contraction"
     if bad is None and mpi is not None:
         # (a scalar result comes back with shape (1,): numpy's asfortranarray makes the reduction buffer at least 1-d)
         got_mpi = mpi[1].reshape(full.shape) if mpi[1].size == full.size and full.ndim == 0 else mpi[1]
